@@ -3,7 +3,8 @@ PROP = {
   "saml2_tophat.response:StatusResponse.status_ok",
   "saml2_tophat.response:StatusResponse._verify",
   "saml2_tophat.request:Request._verify",
-  "saml2_tophat.request:Request.verify"
+  "saml2_tophat.request:Request.verify",
+  "saml2_tophat.response:AuthnResponse.verify"
  ],
  "tables": [
   "table_statuscodes"
